@@ -760,7 +760,9 @@ func c13EpSplitCreate(e *c13EpEnv, s *VStream, stats *VStats, r *VRand, symOf ma
 	newID := e.id(p2.ue)
 	// is the endpoint in its dialer's bucket already (registered inside the table write's critical section)?
 	pubOp := "ep gocpub"
-	if e.registered(p2.ue) {
+	// (an endpoint that is closed already at this point was registered too: only the watcher of its ended
+	// transport can have retired it, and the watcher knows registered endpoints only)
+	if e.registered(p2.ue) || p2.ue.conn.(*c13Conn).closes.Load() > 0 {
 		pubOp = "ep gocpubreg"
 		stats.Inc("ep.split.create.registeredAtPublish")
 	} else {
